@@ -162,6 +162,28 @@ def trace_part(chk, tier):
                         ev['res'] = [-2]
                         ev['exc'] = type(e).__name__
                     lines.append(json.dumps(ev))
+    # the type KEYWORD in HTML documents is ASCII-case-insensitive for every pseudo-class that reads it (also where the library scans the
+    # form by hand: the default button, radio groups); flat forms only (nested forms are C17's drift zone)
+    KW = ('<form><input type="SUBMIT" id="u1"/><input type="submit" id="u2"/><input type="CHECKBOX" checked="checked" id="u3"/>'
+          '<input type="Radio" name="g" id="u4"/><input type="RADIO" name="g" id="u5"/><input type="NUMBER" min="1" max="3" value="5" id="u6"/>'
+          '<input type="Text" placeholder="p" id="u7"/><input type="HIDDEN" disabled="disabled" id="u8"/></form>'
+          '<form><button type="Submit" id="u9">b</button><input type="radio" NAME="g" Checked="checked" id="u10"/><input type="radio" name="g" id="u11"/></form>')
+    kwsels = ['default', 'checked', 'indeterminate', 'enabled', 'disabled', 'read-write', 'read-only', 'placeholder-shown', 'in-range', 'out-of-range']
+    for parser in ('html.parser', 'lxml', 'html5lib'):
+        soup = bs4.BeautifulSoup(KW, parser)
+        d, nodes = dom.project(soup, bs4)
+        idmap = dom.ids_of(nodes)
+        root = min([i + 1 for i, (p, k) in enumerate(zip(d['parent'], d['kind'])) if p == 0 and k == 'e'] or [0])
+        for k in kwsels:
+            ast = [{'cs': [[{'k': k}]], 'cb': []}]
+            css = ':' + k
+            ev = {'id': 'kw.%s.%s' % (parser, k), 'doc': d, 'sel': ast, 'nsmap': [], 'scope': root, 'target': 0, 'css': css}
+            try:
+                ev['res'] = [idmap[id(t)] for t in sv.select(css, soup)]
+            except Exception as e:
+                ev['res'] = [-2]
+                ev['exc'] = type(e).__name__
+            lines.append(json.dumps(ev))
     trace.validate(chk, lines, 'Trace_Select', 'trace-parsers')
     e = json.loads(lines[5])
     chk.sample({'trace_event': {'id': e['id'], 'css': e['css'], 'res': e['res']}}, cap=14)
